@@ -54,7 +54,9 @@ Proof.
         split; [left; reflexivity|].
         split; [intros v' Nv'; split; [apply upd_other; exact Nv'|reflexivity]|].
         split; [intros _ X; rewrite Hpc in X; discriminate X|].
-        intros X. left. exact X.
+        split; [intros X; left; exact X|].
+        right. split; [unfold U in *; gcbn; cbn [length]; lia|].
+        eapply dirty_eq; [exact (g_enc _ _ _ G)|exact Wf|gcbn; reflexivity|exact Wn|reflexivity].
 Qed.
 
 
@@ -79,7 +81,7 @@ Proof.
   assert (W1 : wfr (set_wq r (f_wq r - 1))) by (apply set_wq_wf; [assumption|lia]).
   (* the threads that do not move: the same argument in every case *)
   assert (Others : forall s2 r2 p2,
-             st s2 = enc r2 -> wfr r2 -> (lockh s <> None -> f_pb r2 = f_pb r) ->
+             st s2 = enc r2 -> wfr r2 -> (lockh s <> None -> f_pb r2 = f_pb r /\ f_d r2 = 1) ->
              lst s2 = lst s -> pcs s2 = upd (pcs s) t p2 -> grant s2 = grant s ->
              holders s2 = remove_z t (holders s) -> rq s2 = rq s ->
              (lockh s2 = lockh s /\ bmode s2 = bmode s /\ dw s2 = dw s \/ lockh s = None /\ lockh s2 = Some t) ->
@@ -94,10 +96,12 @@ Proof.
     - destruct Tk as [->|(E0 & ->)]; [reflexivity|]. rewrite E0. split; [intros X; congruence|discriminate].
     - intros v Lv Nv. destruct Lk as [(E3 & E4 & E5)|(E0 & E3)]; [|congruence].
       unfold stable_for_owner. rewrite E4, E5, L2, P2, G2. split; [reflexivity|]. split; [reflexivity|].
-      split; [eapply pb_eq; [exact (g_enc _ _ _ G)|exact Wf|exact E2|exact W2|apply Pb2; congruence]|].
+      assert (LS : lockh s <> None) by congruence. destruct (Pb2 LS) as [Pb3 Pd3].
+      split; [eapply pb_eq; [exact (g_enc _ _ _ G)|exact Wf|exact E2|exact W2|exact Pb3]|].
       split; [left; unfold U; rewrite H2, R2; lia|]. split; [left; reflexivity|].
       split; [intros v' Nv'; split; [apply upd_other; exact Nv'|reflexivity]|].
-      split; [intros _ X; rewrite Hpc in X; discriminate X|]. intros X. left. exact X. }
+      split; [intros _ X; rewrite Hpc in X; discriminate X|]. split; [intros X; left; exact X|].
+      left. rewrite (dirty_st s2 r2 E2 W2). exact Pd3. }
   (* the moving thread, when it ends up outside *)
   assert (Self : forall s2 p2, holds p2 = false -> owns p2 = false -> waitpc p2 = false ->
              pcs s2 = upd (pcs s) t p2 -> grant s2 = grant s -> holders s2 = remove_z t (holders s) ->
@@ -241,7 +245,7 @@ Proof.
         split; [reflexivity|]. split; [reflexivity|]. split; [reflexivity|]. split; [left; lia|]. split; [left; reflexivity|].
         split; [intros v' Nv'; split; [apply upd_other; exact Nv'|reflexivity]|].
         split; [intros Gn Wp; split; [exact Gn|]; rewrite upd_same; rewrite Hpc in Wp; destruct k; cbn in *; auto|].
-        intros X. left. exact X.
+        split; [intros X; left; exact X|]. right. split; [lia|reflexivity].
 Qed.
 
 Lemma step_A_acq W s t q ovr s' : Inv W s -> valid_tid t -> pcs s t = A_acq q ovr -> gstep W s t = Some s' -> Inv W s'.
@@ -273,7 +277,9 @@ Proof.
         split; [left; reflexivity|].
         split; [intros v' Nv'; split; [apply upd_other; exact Nv'|reflexivity]|].
         split; [intros _ X; rewrite Hpc in X; discriminate X|].
-        intros X. left. exact X.
+        split; [intros X; left; exact X|].
+        right. split; [unfold U in *; gcbn; cbn [length]; lia|].
+        eapply dirty_eq; [exact (g_enc _ _ _ G)|exact Wf|gcbn; reflexivity|exact Wn|reflexivity].
 Qed.
 
 Lemma head_bar_app s l x : lst s = l -> forall s2, lst s2 = l ++ [x] -> head_bar s -> head_bar s2.
@@ -305,7 +311,8 @@ Proof.
         split; [right; eexists; split; [reflexivity|left; reflexivity]|].
         split; [intros v' Nv'; split; [apply upd_other; exact Nv'|reflexivity]|].
         split; [intros _ X; rewrite Hpc in X; discriminate X|].
-        intros X. rewrite waiters_app in X. cbn [i_wt Z.eqb] in X. rewrite app_nil_r in X. left. exact X.
+        split; [intros X; rewrite waiters_app in X; cbn [i_wt Z.eqb] in X; rewrite app_nil_r in X; left; exact X|].
+        right. split; [lia|reflexivity].
 Qed.
 
 Lemma step_A_wake W s t q fl s' : Inv W s -> valid_tid t -> pcs s t = A_wake q fl -> gstep W s t = Some s' -> Inv W s'.
@@ -357,7 +364,11 @@ Proof.
              split; [eapply pb_eq; [exact (g_enc _ _ _ G)|exact Wf|gcbn; reflexivity|exact Wr'|reflexivity]|].
              split; [left; unfold U; gcbn; lia|]. split; [left; reflexivity|].
              split; [intros v' Nv'; split; [apply upd_other; exact Nv'|reflexivity]|].
-             split; [intros _ X; rewrite Hpc in X; discriminate X|]. intros X. left. exact X.
+             split; [intros _ X; rewrite Hpc in X; discriminate X|]. split; [intros X; left; exact X|].
+             destruct Hd' as [Hd'|Hd'].
+             ++ right. split; [unfold U; gcbn; lia|].
+                eapply dirty_eq; [exact (g_enc _ _ _ G)|exact Wf|gcbn; reflexivity|exact Wr'|exact Hd'].
+             ++ left. match goal with |- dirty ?s2 = 1 => rewrite (dirty_st s2 _ eq_refl Wr') end. exact Hd'.
     - rewrite E0. cbn [Z.eqb negb].
       split; [exact HW|]. split.
       + eexists. destruct G. constructor; try reflexivity; try exact Wr'; unfold U in *; gcbn; fcbn; try assumption; try lia.
@@ -418,7 +429,8 @@ Proof.
         -- intros v Lv Nv. unfold stable_for_owner, U, pb; gcbn. split; [reflexivity|]. split; [reflexivity|].
            split; [reflexivity|]. split; [left; lia|]. split; [left; reflexivity|].
            split; [intros v' Nv'; split; [apply upd_other; exact Nv'|reflexivity]|].
-           split; [intros _ X; rewrite Hpc in X; discriminate X|]. intros X. left. exact X.
+           split; [intros _ X; rewrite Hpc in X; discriminate X|]. split; [intros X; left; exact X|].
+           right. split; [lia|reflexivity].
   - destruct (mem_z i (rq s)) eqn:M; [|discriminate]. injection Hs as <-. apply mem_z_in in M.
     pose proof (remove_z_length i _ M) as RL.
     pose proof (not_waiting_grant W s t (T t)) as Gt. rewrite Hpc in Gt. specialize (Gt eq_refl).
@@ -444,5 +456,6 @@ Proof.
         -- intros v Lv Nv. unfold stable_for_owner, U, pb; gcbn; cbn [length]. split; [reflexivity|]. split; [reflexivity|].
            split; [reflexivity|]. split; [left; lia|]. split; [left; reflexivity|].
            split; [intros v' Nv'; split; [apply upd_other; exact Nv'|reflexivity]|].
-           split; [intros _ X; rewrite Hpc in X; discriminate X|]. intros X. left. exact X.
+           split; [intros _ X; rewrite Hpc in X; discriminate X|]. split; [intros X; left; exact X|].
+           right. split; [lia|reflexivity].
 Qed.
